@@ -156,6 +156,10 @@ class _SeenNodesWalkMapper(CachedWalkMapper[[]]):
         return id(expr)
 
     @override
+    def get_function_definition_cache_key(self, expr: FunctionDefinition) -> int:
+        return id(expr)
+
+    @override
     def visit(self, expr: ArrayOrNames | FunctionDefinition) -> bool:
         super().visit(expr)
         if isinstance(expr, ArrayOrNames):
